@@ -322,6 +322,77 @@ def line_totals(R, ctx):
     R.ob(rid, "block_total|multi-line-last-token", not bad, ctx.where(fn), "all %d layouts give the line where the block's text ends" % n if not bad else bad[0])
 
 
+def append_shift(R, ctx):
+    """The header a rule inserts at the start moves every token by exactly the number of lines it occupies."""
+    import posixpath
+    from .. import peval
+    from ..peval import make, ok, Enum, Struct, NONE
+    from ..pathmodel import PathV
+    rid = "C04.append-shift"
+    lib = ctx.lib
+    T = "rules::append_text_comment::AppendTextComment"
+    R.rule(rid, "AppendTextComment::process at the start of a file, evaluated from its typed tree for texts with and without a trailing newline, "
+                "one or several lines, empty lines, a `]]` inside, given inline or read from a file (hooked): the amount handed to "
+                "ShiftTokenLine equals the number of line breaks in the trivia inserted before the first token (comment + separator), so every "
+                "later token keeps its distance to the header; texts are also processed twice with one rule object (the cached text)")
+    proc = lib.fn("<%s as rules::Rule>::process" % T)
+    ctors = {"inline": lib.fn(T + "::new"), "file": lib.fn(T + "::from_file_content")}
+    if not R.require(rid, "anchor:process", proc is not None and any(ctors.values()) and "rules::Context" in lib.adts, "", "AppendTextComment process / constructors not found"):
+        return
+    TEXTS = ["x", "x\n", "a\nb", "a\nb\n", "a\n\nb\n\n", "\n", "with ]] inside\nsecond", "one ]=] line"]
+
+    def context():
+        over = {}
+        for f in lib.adts["rules::Context"]["variants"][0]["fields"]:
+            t = f["tys"]
+            over[f["name"]] = PathV("src/main.lua") if t == "std::path::PathBuf" else (Struct("#Resources", {}) if "Resources" in t else (NONE if t.startswith("core::option::Option<") else ("" if t.endswith("str") else None)))
+        return make(lib, "rules::Context", {k: v for k, v in over.items() if v is not None})
+    bad, n = [], 0
+    for how, ctor in ctors.items():
+        if ctor is None:
+            continue
+        for text in TEXTS:
+            shifts, tokens = [], []
+
+            def hook(pe, path, fname, args, node, text=text):
+                if fname == "read_to_string" and path.startswith("std::fs::"):
+                    return ok(text)
+                if path.endswith("ShiftTokenLine::new") and len(args) == 1:
+                    shifts.append(args[0])
+                    return NotImplemented
+                if any(isinstance(a_, Struct) and a_.adt == "#Block" for a_ in args):
+                    if fname.startswith("mutate_") and "token" in fname:
+                        tok = make(lib, "nodes::token::Token", {"position": Enum("nodes::token::Position", "Any", {"content": "x"}), "leading_trivia": [], "trailing_trivia": []})
+                        tokens.append(tok)
+                        return tok
+                    return peval.UNIT
+                return NotImplemented
+            pe = peval.PEval(lib, ctx.an, hook=hook)
+            try:
+                rule = pe.call_fn(ctor, [text if how == "inline" else "header.txt"])
+                for _round in (1, 2):
+                    del shifts[:]
+                    del tokens[:]
+                    r = pe.call_fn(proc, [rule, Struct("#Block", {}), context()])
+                    n += 1
+                    lead = tokens[-1].fields.get("leading_trivia") if tokens else []
+                    inserted = 0
+                    for tv in (lead if isinstance(lead, list) else []):
+                        c_ = tv.fields["position"].fields.get("content") if isinstance(tv, Struct) else None
+                        inserted += c_.count("\n") if isinstance(c_, str) else 0
+                    unknown = [w for w in pe.unknown_reasons if w.startswith(("branch on unknown", "match on unknown"))]
+                    if unknown or not (isinstance(r, Enum) and r.variant == "Ok"):
+                        bad.append((how, text, "not established %s %s" % (repr(r)[:40], unknown[:1])))
+                    elif not tokens and not shifts:
+                        pass        # an empty text inserts nothing
+                    elif len(shifts) != 1 or shifts[0] != inserted:
+                        bad.append((how, text, "tokens are shifted by %s but the inserted header takes %d line break(s)" % (shifts, inserted)))
+            except peval.OutOfFuel:
+                bad.append((how, text, "no termination"))
+    R.ob(rid, "shift-equals-lines-inserted", not bad, ctx.where(proc), "%d header insertions" % n if not bad else "%s text %r: %s" % bad[0])
+    R.require(rid, "floor:cases", n >= 20, "", "%d insertions evaluated" % n)
+
+
 def run(R, ctx):
     R.explanation = (
         "Static rules on the line-keeping mechanism: coverage of shift_token_line over every token slot of the AST type graph, "
@@ -335,4 +406,5 @@ def run(R, ctx):
     keep(R, ctx)
     bundle_insert(R, ctx)
     lines_eval(R, ctx)
+    append_shift(R, ctx)
     line_totals(R, ctx)
